@@ -227,7 +227,7 @@ func scanTag(lit string) ([]TagItem, bool) {
 
 var tagKeys = []string{"json", "protobuf", "valid", "xml", "db", "form", "yaml", "bson", "v2", "my_tag", "alipay", "wechat",
 	"x_json", "myvalid", "json2", "JSON", "a", "_"} // keys that end with / start with / differ only in case from other keys
-var tagValRunes = []rune("abcxyzABC019 ,=|~$\\/-_.:;()[]{}<>#@!?*+'测试验")
+var tagValRunes = []rune("abcxyzABC019 ,=|~$\\/-_.:;()[]{}<>#@!?*+'%测试验")
 
 func genTagVal(t *rapid.T, label string) string {
 	switch rapid.IntRange(0, 6).Draw(t, label+"Kind") {
@@ -235,7 +235,7 @@ func genTagVal(t *rapid.T, label string) string {
 		// a small pool of common values: different keys (and injected vs existing items) often carry the same value
 		return rapid.SampledFrom([]string{"name", "required", "-", "a"}).Draw(t, label+"Common")
 	case 0:
-		return rapid.SampledFrom([]string{"name,omitempty", "bytes,1,opt,name=name,proto3", "required,to=1~3", "to=1~10|cost in $USD", "$1", "${x}", "$$", "re='\\d+'|必须为纯数字", "a\\b", "-"}).Draw(t, label+"Fixed")
+		return rapid.SampledFrom([]string{"name,omitempty", "bytes,1,opt,name=name,proto3", "required,to=1~3", "to=1~10|cost in $USD", "$1", "${x}", "$$", "re='\\d+'|必须为纯数字", "a\\b", "-", "50%", "100%s %d", "required|see @tag doc", "to=1~3|the @tag marker"}).Draw(t, label+"Fixed")
 	default:
 		n := rapid.IntRange(1, 10).Draw(t, label+"Len")
 		var b strings.Builder
